@@ -23,8 +23,10 @@ RULE = ("matrices are drawn from VERIF_SEED: sizes 1..7; dense random, graded (c
 CORR_ONLY = ["convergence of the unshifted QR iteration (spectra separated in magnitude): decided against the known spectrum and the model's iteration",
              "termination and accuracy of Find_Eigenvector_Rayleigh / Eigensystem / Eigenvectors: property oracle on the implementation only "
              "(the outcome of inverse iteration with the converged eigenvalue as shift is decided by rounding errors, which the exact model does not have)"]
-ASSUMPTIONS = ["theorems are stated for the algebraic skeleton over Mathlib matrices (every sequence of symmetric orthogonal reflectors); "
-               "sqrt enters as a parameter exact at the arguments used",
+ASSUMPTIONS = ["the algebraic clauses are stated over Mathlib matrices (every sequence of symmetric orthogonal reflectors) and, end to end, "
+               "for the executable list model without rounding (qr_list_model: Q*R = M, Q orthogonal, R upper triangular for every "
+               "non-singular matrix; eigenvalues_similar/eigenvalues_trace for the iterates of Eigenvalues); "
+               "sqrt enters as a parameter exact at exactly the arguments the run hands to it (qrSqOK / eigSqOK)",
                "Matrix::Inverse (property C05) is a parameter of the Rayleigh model"]
 TRUSTED = ["numpy.linalg.cond (2-norm condition number) only to scale the class-B tolerance of Q and R"]
 
